@@ -2,6 +2,8 @@ pub mod common;
 pub mod conformance;
 pub mod c01;
 pub mod c06;
+pub mod c10;
+pub mod c11;
 pub mod c16;
 
 use std::fs;
@@ -15,14 +17,19 @@ pub fn dispatch(ctx: &Ctx) -> bool {
     match ctx.property.as_str() {
         "C01" => c01::run(ctx),
         "C06" => c06::run(ctx),
+        "C10" => c10::run(ctx),
+        "C11" => c11::run(ctx),
         "C16" => c16::run(ctx),
         _ => return false,
     }
     true
 }
 
-pub fn custom_for(_property: &str) -> Option<CustomFn<'static>> {
-    None
+pub fn custom_for(property: &str) -> Option<CustomFn<'static>> {
+    match property {
+        "C10" => Some(&c10::custom),
+        _ => None,
+    }
 }
 
 // Re-runs one saved case through the binary (no generator library involved).
